@@ -16,13 +16,14 @@ from typing import Any
 import numpy as np
 import scipp as sc
 
+from .._utils import as_float_type
 from ..chopper import DiskChopper
 
 
 def wavelength_to_inverse_velocity(wavelength):
     h = sc.constants.h
     m_n = sc.constants.m_n
-    return (wavelength * m_n / h).to(unit='s/m')
+    return as_float_type((wavelength * m_n / h).to(unit='s/m'), wavelength)
 
 
 def propagate_times(
